@@ -1,12 +1,12 @@
 CONSTANTS
   MaxIdx = 10
-  FaultKinds = {"short", "fetchErr", "quota", "fatal", "rootErr", "sthErr", "consErr", "cancel", "revoke"}
+  FaultKinds = {"short", "emptyPage", "fetchErr", "quota", "fatal", "rootErr", "sthErr", "consErr", "cancel", "revoke"}
   KeepHist = FALSE
 INIT TraceInit
 NEXT TraceNext
 VIEW TraceView
 CONSTRAINT HighWater
-INVARIANTS Gate Mirror Bounded NoConflict QuotaRetried Complete VerbatimBad PrefixOK
+INVARIANTS Gate Mirror Bounded NoConflict QuotaRetried Complete NoGap VerbatimBad PrefixOK
 PROPERTIES
 POSTCONDITION TraceAccepted
 CHECK_DEADLOCK FALSE
